@@ -72,7 +72,11 @@ MStep(mm, o, S0, S1) ==
          [] o.op = "insert_from_back" -> [mm EXCEPT !.ord = InsertAt(mm.ord, SatSub(Len(mm.ord), o.idx), nb)]
          [] o.op = "insert_before" -> [mm EXCEPT !.ord = InsertAt(mm.ord, IPos(mm.ord, o.b2) - 1, nb)]
          [] o.op = "insert_after" -> [mm EXCEPT !.ord = InsertAt(mm.ord, IPos(mm.ord, o.b2), nb)]
-         [] o.op = "mp_remove" -> [mm EXCEPT !.ord = SelectSeq(mm.ord, LAMBDA e : e.b # b), !.lines = [x \in DOMAIN mm.lines \ {b} |-> mm.lines[x]]]
+         [] o.op = "mp_remove" -> IF member THEN MDraw([mm EXCEPT !.ord = SelectSeq(mm.ord, LAMBDA e : e.b # b), !.lines = [x \in DOMAIN mm.lines \ {b} |-> mm.lines[x]]], <<>>) ELSE mm
+         [] o.op = "set_target" -> IF member THEN MDraw([mm EXCEPT !.ord = Ghost(mm.ord, b), !.lines = [x \in DOMAIN mm.lines \ {b} |-> mm.lines[x]]], <<>>) ELSE mm
+         [] o.op = "readd" ->
+               IF member THEN [MDraw([mm EXCEPT !.ord = Ghost(mm.ord, b), !.lines = [x \in DOMAIN mm.lines \ {b} |-> mm.lines[x]]], <<>>) EXCEPT !.ord = Append(@, nb)]
+               ELSE [mm EXCEPT !.ord = Append(mm.ord, nb)]
          [] o.op = "mp_clear" -> MClear(mm)
          [] o.op = "mp_println" -> MDraw(mm, TextLines(o.m))
          [] o.op = "println" -> IF member THEN MDraw([fresh EXCEPT !.orphans = @ \o TextLines(o.m)], <<>>) ELSE mm
@@ -85,7 +89,8 @@ MStep(mm, o, S0, S1) ==
          [] o.op \in {"set_style", "restyle", "clone", "drop_one", "mp_set_alignment", "mp_set_move_cursor", "reset_eta", "reset_elapsed", "is_hidden", "downgrade", "upgrade"} -> mm
          [] OTHER -> IF member THEN MDraw(fresh, <<>>) ELSE mm
 
-Painted(o, S0) == o.op \notin {"add", "insert", "insert_from_back", "insert_before", "insert_after", "mp_remove", "set_style", "restyle", "clone", "drop_one",
+Painted(o, S0) == (o.op \in {"set_target", "readd", "mp_remove"} => S0.bars[o.b].inmp)
+                  /\ o.op \notin {"add", "insert", "insert_from_back", "insert_before", "insert_after", "set_style", "restyle", "clone", "drop_one",
                                "mp_set_alignment", "mp_set_move_cursor", "reset_eta", "reset_elapsed", "is_hidden", "downgrade", "upgrade"}
                   /\ (o.op = "drop" => S0.bars[o.b].fin = "no")
                   /\ (o.b # 0 => (o.b \in S0.ids => S0.bars[o.b].vis))
